@@ -1,15 +1,17 @@
 (* C06 — property theorems only. *)
-From C06 Require Import Model Spec Proofs.
+From C06 Require Import Model Spec Proofs ProofsRef.
 
-(* (1) A function that is not destructive never changes any list other than the variable it is stored
-   into: every state, every operation of the class, no guard (w only has to be a well-formed variable). *)
+(* (1) A function that is not destructive (list, cons, list*, cdr, nthcdr, member, last, butlast, subseq, copy-list,
+   reverse, append, add, push, pop, remove/delete, mapcar, nconc as repaired) never changes any list other than
+   the variable it is stored into: every state, every operation of the class, no guard (w only has to be a
+   well-formed variable). *)
 Theorem C06_nondestructive_frame : forall st o cap w,
   nondestructive o = true -> w <> dst_of o -> wf_var st w -> vcontents (step st o cap) w = vcontents st w.
 Proof. exact nondestructive_frame. Qed.
 Print Assumptions C06_nondestructive_frame.
 
-(* (2) A destructive operation on v leaves alone every variable whose slice is on another backing array:
-   every state, no guard. *)
+(* (2) A destructive operation on v ((setf car/nth/elt), rplaca, rplacd, nreverse, sort) leaves alone every
+   variable whose slice is on another backing array: every state, no guard. *)
 Theorem C06_destructive_frame : forall st o cap v s w t,
   destructive_on o = Some v -> getv st v = Some s -> w <> dst_of o -> getv st w = Some t ->
   (s_len t = 0 \/ s_arr t < length (hp st)) -> s_arr t <> s_arr s ->
@@ -18,20 +20,22 @@ Proof. exact destructive_frame. Qed.
 Print Assumptions C06_destructive_frame.
 
 (* (3) The invariant "all live slices on one backing array end at the same cell" (they are tails of one
-   another, exactly like conses sharing a tail) holds initially, is preserved by every guarded operation
-   for every capacity the runtime may choose, hence holds after every guarded history. *)
+   another, exactly like conses sharing a tail) holds initially, is preserved by every modelled operation
+   except rplacd for every capacity the runtime may choose and whatever the state is, hence holds after
+   every history of modelled operations that contains no rplacd (inv_ops is a condition on the operations
+   only: destination variable in range, not rplacd). *)
 Theorem C06_invariant_step : forall nv st o cap,
-  Inv nv st -> op_vars_ok nv o -> g_step nv st o = true -> Inv nv (step st o cap).
+  Inv nv st -> op_vars_ok nv o -> g_inv o = true -> Inv nv (step st o cap).
 Proof. exact inv_step. Qed.
 Print Assumptions C06_invariant_step.
-Theorem C06_invariant_history : forall nv ops st, Inv nv st -> guard_ops nv st ops = true -> Inv nv (run_ops st ops).
+Theorem C06_invariant_history : forall nv ops st, Inv nv st -> inv_ops nv ops = true -> Inv nv (run_ops st ops).
 Proof. exact inv_history. Qed.
 Print Assumptions C06_invariant_history.
 Theorem C06_invariant_init : forall nv, Inv nv (init nv).
 Proof. exact Inv_init. Qed.
 Print Assumptions C06_invariant_init.
 
-(* (4) Hence: after any guarded history, modifying or destructively processing a list changes another
+(* (4) Hence: after any such history, modifying or destructively processing a list changes another
    variable only if that variable is a tail of it (or it of the variable): same array, same end. *)
 Theorem C06_only_tails_change : forall nv st o cap v s w t,
   Inv nv st -> destructive_on o = Some v -> getv st v = Some s -> w <> dst_of o -> live st w = Some t ->
@@ -40,29 +44,83 @@ Theorem C06_only_tails_change : forall nv st o cap v s w t,
 Proof. exact destructive_changes_only_tails. Qed.
 Print Assumptions C06_only_tails_change.
 
-(* (5) consing, pushing, copying (and butlast) return a list on a backing array no other variable is on *)
+(* (5) list, consing, pushing, copying, butlast, append, add, remove/delete, mapcar return a list on a backing
+   array no other variable is on *)
 Theorem C06_fresh_result_alone : forall nv st o cap w t r,
   Inv nv st -> fresh_op o = true -> dst_of o < nv -> w <> dst_of o ->
   live (step st o cap) (dst_of o) = Some r -> live (step st o cap) w = Some t -> s_arr t <> s_arr r.
 Proof. exact fresh_result_alone. Qed.
 Print Assumptions C06_fresh_result_alone.
 
-(* (6) outside the guard the faithful model breaks the frame rules: known findings *)
-Theorem C06_add_overwrites_refuted :
-  vcontents (run_ops (init 4) w_add_overwrites) 2 = [1; 2; 3; 4; 6]%Z /\
-  judge_m 4 (init 4) (cinit 4) w_add_overwrites = false /\ guard_ops 4 (init 4) w_add_overwrites = false.
-Proof. exact add_overwrites_refuted. Qed.
-Print Assumptions C06_add_overwrites_refuted.
-Theorem C06_subseq_shares_refuted :
-  vcontents (run_ops (init 4) w_subseq_shares) 0 = [1; 7; 3]%Z /\
-  judge_m 4 (init 4) (cinit 4) w_subseq_shares = false /\ guard_ops 4 (init 4) w_subseq_shares = false.
-Proof. exact subseq_shares_refuted. Qed.
-Print Assumptions C06_subseq_shares_refuted.
+(* (6) REFINEMENT of the cons-cell reference (Spec.v: a heap of cells with car and cdr, variables point to a
+   cell or are nil; tail selectors return the existing cell, every other function builds new cells, destructive
+   functions write the cars of their argument's own cells).  For every history of modelled operations from the
+   empty state that stays inside the guard (destination variable in range; no rplacd; no subseq of nil), for every
+   capacity the Go runtime picks at every allocation, and for every variable: the contents of the variable in the
+   slice model are exactly the contents of the variable in the reference machine run on the same operations. *)
+Theorem C06_refines_cons_model : forall nv ops w,
+  guard_ops nv (init nv) ops = true ->
+  vcontents (run_ops (init nv) ops) w = ccontents (crun (cinit nv) (map fst ops)) w.
+Proof. exact refines_cons_model. Qed.
+Print Assumptions C06_refines_cons_model.
 
-(* (7) the guard admits a history with tail sharing, destructive updates, an in-place add, nconc, nreverse, sort *)
+(* (6a) the simulation behind it: the relation Rel (every backing array stands for one chain of cells; a live
+   slice ends where the used part of its array ends and its variable points to the cell of its first position;
+   nil <-> nil) holds initially and is preserved by every guarded operation whatever capacity is chosen. *)
+Theorem C06_simulation_step : forall nv g st c o cap,
+  Rel nv g st c -> dst_of o < nv -> g_step st o = true -> exists g', Rel nv g' (step st o cap) (cstep c o).
+Proof. exact sim_step. Qed.
+Print Assumptions C06_simulation_step.
+Theorem C06_simulation_init : forall nv, Rel nv [] (init nv) (cinit nv).
+Proof. exact Rel_init. Qed.
+Print Assumptions C06_simulation_init.
+Theorem C06_simulation_contents : forall nv g st c, Rel nv g st c -> forall w, vcontents st w = ccontents c w.
+Proof. exact Rel_contents. Qed.
+Print Assumptions C06_simulation_contents.
+
+(* (6b) slices on one array <-> variables sharing a tail: in related states two live variables share a cons
+   cell of the reference exactly when their slices lie on the same backing array. *)
+Theorem C06_shares_iff_same_array : forall nv g st c v w s t,
+  Rel nv g st c -> live st v = Some s -> live st w = Some t -> (shares c v w = true <-> s_arr s = s_arr t).
+Proof. exact shares_iff_same_array. Qed.
+Print Assumptions C06_shares_iff_same_array.
+
+(* (6c) consequence: inside the guard the contents of every variable never depend on the capacities Go's
+   append and make happened to choose. *)
+Theorem C06_contents_capacity_independent : forall nv ops1 ops2 w,
+  map fst ops1 = map fst ops2 -> guard_ops nv (init nv) ops1 = true -> guard_ops nv (init nv) ops2 = true ->
+  vcontents (run_ops (init nv) ops1) w = vcontents (run_ops (init nv) ops2) w.
+Proof. exact contents_capacity_independent. Qed.
+Print Assumptions C06_contents_capacity_independent.
+
+(* (6d) outside the guard: rplacd (known finding).  The faithful model of pkg/cl/rplacd.go writes the new tail
+   over the old elements: x = (1 2 3 4), y = (cdr x), (rplacd x '(7)) leaves x = (1 7 3 4) and y = (7 3 4) where
+   the cons reference has x = (1 7) and y = (2 3 4); and whether rplacd changes its argument at all depends on
+   the spare capacity (x = (1 2), (rplacd x '(7 8 9)): x stays (1 2) with capacity 2, becomes (1 7) with 4). *)
+Theorem C06_rplacd_not_cons_refuted :
+  map (vcontents (run_ops (init 4) w_rplacd)) [0; 1; 2] = [[1; 7; 3; 4]; [7; 3; 4]; [1; 7]]%Z /\
+  map (ccontents (crun (cinit 4) (map fst w_rplacd))) [0; 1; 2] = [[1; 7]; [2; 3; 4]; [1; 7]]%Z /\
+  guard_ops 4 (init 4) w_rplacd = false /\
+  vcontents (run_ops (init 4) (w_rplacd_cap 2)) 0 = [1; 2]%Z /\ vcontents (run_ops (init 4) (w_rplacd_cap 4)) 0 = [1; 7]%Z.
+Proof. exact rplacd_not_cons_refuted. Qed.
+Print Assumptions C06_rplacd_not_cons_refuted.
+
+(* (7) the guard admits a history with tail sharing, destructive updates, add, nconc, nreverse, sort, and on it
+   the slice model and the cons-cell reference agree on the contents of every variable after every step *)
 Theorem C06_guard_nonvacuous :
   guard_ops 4 (init 4) ex_guarded = true /\ judge_m 4 (init 4) (cinit 4) ex_guarded = true /\
   map (vcontents (run_ops (init 4) ex_guarded)) [0; 1; 2; 3] =
     [[1; 5; 7; 9]; [2; 8; 6; 1; 9; 7; 5]; [7; 0; 1]; [1; 9; 7; 5]]%Z.
 Proof. exact guarded_example. Qed.
 Print Assumptions C06_guard_nonvacuous.
+
+(* (8) the histories that were the add and subseq findings are inside the guard after the repairs and give
+   the lists the property demands: two lists added to the same list keep their own last element; modifying a
+   subseq result leaves the argument alone *)
+Theorem C06_repaired_examples :
+  guard_ops 4 (init 4) ex_add_siblings = true /\
+  map (vcontents (run_ops (init 4) ex_add_siblings)) [2; 3] = [[1; 2; 3; 4; 5]; [1; 2; 3; 4; 6]]%Z /\
+  guard_ops 4 (init 4) ex_subseq_copy = true /\
+  map (vcontents (run_ops (init 4) ex_subseq_copy)) [0; 1] = [[1; 2; 3]; [7; 3]]%Z.
+Proof. exact repaired_examples. Qed.
+Print Assumptions C06_repaired_examples.
